@@ -42,9 +42,12 @@ func init() {
 
 // RegisterCodec registers a new codec
 func RegisterCodec(name string, codec *Codec) error {
+	verifLock(&mutex, 0)
+	defer verifLock(&mutex, 1)
 	mutex.Lock()
 	defer mutex.Unlock()
 
+	verifAccess(&codecs, "codecs", true)
 	if _, exists := codecs[name]; exists {
 		return errors.New("codec already registered: " + name)
 	}
@@ -54,9 +57,12 @@ func RegisterCodec(name string, codec *Codec) error {
 
 // GetCodec retrieves a codec by its name
 func GetCodec(name string) (*Codec, error) {
+	verifLock(&mutex, 2)
+	defer verifLock(&mutex, 3)
 	mutex.RLock()
 	defer mutex.RUnlock()
 
+	verifAccess(&codecs, "codecs", false)
 	codec, exists := codecs[name]
 	if !exists {
 		return nil, errors.New("codec not found: " + name)
